@@ -11,23 +11,23 @@
    else (no data, no colour, no other link) is written.   Appendix A1 of DESIGN.md. */
 #define ROT_CONTRACT(A, B) /* A = arm of the pivot child (R for left rotation), B = the other arm */ \
   __CPROVER_requires(__CPROVER_is_fresh(self, sizeof(*self))) \
-  __CPROVER_requires(__CPROVER_is_fresh(v_x, sizeof(*v_x))) \
-  __CPROVER_requires(__CPROVER_is_fresh(A(v_x), sizeof(*v_x))) \
-  __CPROVER_requires(B(A(v_x)) == NULL || __CPROVER_is_fresh(B(A(v_x)), sizeof(*v_x))) \
-  __CPROVER_requires(P(v_x) == NULL || __CPROVER_is_fresh(P(v_x), sizeof(*v_x))) \
-  __CPROVER_assigns(self->f_root, A(v_x), P(v_x), B(A(v_x)), P(A(v_x))) \
-  __CPROVER_assigns(B(A(v_x)) != NULL: P(B(A(v_x)))) \
-  __CPROVER_assigns(P(v_x) != NULL: L(P(v_x)), R(P(v_x))) \
-  __CPROVER_ensures(P(v_x) == __CPROVER_old(A(v_x)))                         /* y is now x's parent          */ \
-  __CPROVER_ensures(B(P(v_x)) == v_x)                                         /* x hangs on y's B side        */ \
-  __CPROVER_ensures(A(v_x) == __CPROVER_old(B(A(v_x))))                       /* y's old B subtree moved to x */ \
-  __CPROVER_ensures(A(v_x) != NULL ==> P(A(v_x)) == v_x) \
-  __CPROVER_ensures(P(P(v_x)) == __CPROVER_old(P(v_x)))                       /* y took x's place             */ \
-  __CPROVER_ensures(__CPROVER_old(P(v_x)) == NULL ? self->f_root == P(v_x) : self->f_root == __CPROVER_old(self->f_root)) \
-  __CPROVER_ensures((__CPROVER_old(P(v_x)) != NULL && __CPROVER_old(B(P(v_x))) == v_x) ==> \
-        (B(P(P(v_x))) == P(v_x) && A(P(P(v_x))) == __CPROVER_old(A(P(v_x))))) \
-  __CPROVER_ensures((__CPROVER_old(P(v_x)) != NULL && __CPROVER_old(B(P(v_x))) != v_x) ==> \
-        (A(P(P(v_x))) == P(v_x) && B(P(P(v_x))) == __CPROVER_old(B(P(v_x)))))
+  __CPROVER_requires(__CPROVER_is_fresh(IPR_ARG0, sizeof(*IPR_ARG0))) \
+  __CPROVER_requires(__CPROVER_is_fresh(A(IPR_ARG0), sizeof(*IPR_ARG0))) \
+  __CPROVER_requires(B(A(IPR_ARG0)) == NULL || __CPROVER_is_fresh(B(A(IPR_ARG0)), sizeof(*IPR_ARG0))) \
+  __CPROVER_requires(P(IPR_ARG0) == NULL || __CPROVER_is_fresh(P(IPR_ARG0), sizeof(*IPR_ARG0))) \
+  __CPROVER_assigns(self->f_root, A(IPR_ARG0), P(IPR_ARG0), B(A(IPR_ARG0)), P(A(IPR_ARG0))) \
+  __CPROVER_assigns(B(A(IPR_ARG0)) != NULL: P(B(A(IPR_ARG0)))) \
+  __CPROVER_assigns(P(IPR_ARG0) != NULL: L(P(IPR_ARG0)), R(P(IPR_ARG0))) \
+  __CPROVER_ensures(P(IPR_ARG0) == __CPROVER_old(A(IPR_ARG0)))                         /* y is now x's parent          */ \
+  __CPROVER_ensures(B(P(IPR_ARG0)) == IPR_ARG0)                                         /* x hangs on y's B side        */ \
+  __CPROVER_ensures(A(IPR_ARG0) == __CPROVER_old(B(A(IPR_ARG0))))                       /* y's old B subtree moved to x */ \
+  __CPROVER_ensures(A(IPR_ARG0) != NULL ==> P(A(IPR_ARG0)) == IPR_ARG0) \
+  __CPROVER_ensures(P(P(IPR_ARG0)) == __CPROVER_old(P(IPR_ARG0)))                       /* y took x's place             */ \
+  __CPROVER_ensures(__CPROVER_old(P(IPR_ARG0)) == NULL ? self->f_root == P(IPR_ARG0) : self->f_root == __CPROVER_old(self->f_root)) \
+  __CPROVER_ensures((__CPROVER_old(P(IPR_ARG0)) != NULL && __CPROVER_old(B(P(IPR_ARG0))) == IPR_ARG0) ==> \
+        (B(P(P(IPR_ARG0))) == P(IPR_ARG0) && A(P(P(IPR_ARG0))) == __CPROVER_old(A(P(IPR_ARG0))))) \
+  __CPROVER_ensures((__CPROVER_old(P(IPR_ARG0)) != NULL && __CPROVER_old(B(P(IPR_ARG0))) != IPR_ARG0) ==> \
+        (A(P(P(IPR_ARG0))) == P(IPR_ARG0) && B(P(P(IPR_ARG0))) == __CPROVER_old(B(P(IPR_ARG0)))))
 
 /* NB the real code tests `x->parent()->left() == x` in rotate_left and `x->parent()->right() == x` in rotate_right,
    i.e. in both cases "x is its parent's B-side... " is NOT symmetric: rotate_left tests LEFT (= B for A=R),
